@@ -124,8 +124,8 @@ Proof.
       destruct (s_now st <? t_created (e_exp e)) eqn:X; [lia|].
       destruct (t_d (e_exp e) <=? s_now st - t_created (e_exp e)); discriminate.
     + destruct (s_closed st); [discriminate|]. destruct (st_try_remove _ _ _). discriminate.
-    + destruct (s_closed st); [discriminate|]. sproj. destruct (buf_send _ _ _); discriminate.
-    + destruct (s_closed st); [discriminate|]. destruct (s_pc st); discriminate.
+    + destruct (s_closed st); discriminate.
+    + destruct (s_closed st); discriminate.
     + destruct (s_closed st); discriminate.
   - unfold continue_client. destruct (client_of st a); try discriminate.
     + destruct (buf_send c st it); [discriminate|]. destruct (is_update it); discriminate.
@@ -136,6 +136,8 @@ Proof.
       destruct (s_now st <? t_created (e_exp e)) eqn:X; [lia|].
       destruct (t_d (e_exp e) <=? s_now st - t_created (e_exp e)); discriminate.
     + destruct (buf_send c st (IDelete k c0)); [discriminate|]. destruct (s_pc st); discriminate.
+    + sproj. destruct (buf_send _ _ _); discriminate.
+    + destruct (s_pc st); discriminate.
     + destruct (s_closed st); discriminate.
     + destruct (mem_N id (s_done st)); discriminate.
     + destruct (mem_N id (s_done st)); [destruct closing|]; discriminate.
@@ -311,14 +313,8 @@ Proof.
     destruct (st_try_remove _ _ _) as [sto prev] eqn:TR.
     pose proof (store_time_remove _ _ _ _ _ _ ST TR) as ST'. inversion H; subst.
     np_goal. eapply NPv_client; [|exact I]. eapply NPv_store; [np_done N|exact ST'].
-  - destruct (s_closed st); [inversion H; subst; assumption|]. sproj.
-    destruct (buf_send _ _ _) as [st2|] eqn:E.
-    + apply buf_send_eq in E. inversion H; subst. np_goal.
-      eapply NPv_client; [|exact I]. eapply NPv_buf; [np_done N|]. apply Forall_snoc; [assumption|exact I].
-    + inversion H; subst. np_goal. np_done N.
-  - destruct (s_closed st); [inversion H; subst; assumption|].
-    destruct (s_pc st) eqn:PC; inversion H; subst; try assumption; np_goal; rewrite <- ?PC;
-      (eapply NPv_client; [np_done N|exact I]).
+  - destruct (s_closed st); inversion H; subst; [assumption|]. np_goal. eapply NPv_client; [np_done N|exact I].
+  - destruct (s_closed st); inversion H; subst; [assumption|]. np_goal. eapply NPv_client; [np_done N|exact I].
   - destruct (s_closed st); inversion H; subst; [assumption|]. np_goal. eapply NPv_client; [np_done N|exact I].
   - inversion H; subst. assumption.
   - inversion H; subst. np_goal. np_done N.
@@ -343,6 +339,11 @@ Proof.
     + apply buf_send_eq in E. inversion H; subst. np_goal.
       eapply NPv_client; [|exact I]. eapply NPv_buf; [np_done N|]. apply Forall_snoc; [assumption|exact I].
     + destruct (s_pc st); try discriminate; inversion H; subst; np_goal; (eapply NPv_client; [np_done N|exact I]).
+  - sproj. destruct (buf_send _ _ _) as [st2|] eqn:E.
+    + apply buf_send_eq in E. inversion H; subst. np_goal.
+      eapply NPv_client; [|exact I]. eapply NPv_buf; [np_done N|]. apply Forall_snoc; [assumption|exact I].
+    + inversion H; subst. np_goal. eapply NPv_client; [np_done N|exact I].
+  - destruct (s_pc st) eqn:PC; inversion H; subst; np_goal; rewrite <- ?PC; (eapply NPv_client; [np_done N|exact I]).
   - destruct (s_closed st); inversion H; subst; np_goal; (eapply NPv_client; [np_done N|exact I]).
   - destruct (mem_N id (s_done st)); [|discriminate]. inversion H; subst; np_goal; (eapply NPv_client; [np_done N|exact I]).
   - destruct (mem_N id (s_done st)); [|discriminate]. destruct closing; inversion H; subst; np_goal; (eapply NPv_client; [np_done N|exact I]).
